@@ -69,7 +69,7 @@ import collections
 import dataclasses
 import logging
 import os
-from collections.abc import Iterable, Mapping, Sequence
+from collections.abc import Collection, Iterable, Mapping, Sequence
 from typing import Any, Callable
 
 import numpy as np
@@ -1590,6 +1590,16 @@ def serialize_model_into(
     serialize_graph_into(model_proto.graph, from_.graph, model_ir_version=from_.ir_version)
 
     create_value_info_in_functions = from_.ir_version >= _FUNCTION_VALUE_INFO_SUPPORTED_VERSION
+    main_graph_value_names: frozenset[str] = frozenset()
+    if not create_value_info_in_functions and from_.functions:
+        # Names the main graph's value_info entries are looked up with when the model is loaded:
+        # an experimental entry with one of these names would also be attached to that value
+        main_graph_value_names = frozenset(
+            value.name
+            for node in from_.graph
+            for value in (*node.inputs, *node.outputs)
+            if value is not None and value.name
+        ) | frozenset(name for name in from_.graph.initializers if name)
     for func in from_.functions.values():
         serialize_function_into(
             model_proto.functions.add(),
@@ -1599,7 +1609,9 @@ def serialize_model_into(
         )
         if not create_value_info_in_functions:
             # Create them in the main graph instead
-            _serialize_experimental_value_info_for_function_ir9_into(model_proto.graph, func)
+            _serialize_experimental_value_info_for_function_ir9_into(
+                model_proto.graph, func, reserved_names=main_graph_value_names
+            )
     return model_proto
 
 
@@ -1739,7 +1751,9 @@ def _should_create_value_info_for_value(value: _protocols.ValueProtocol) -> bool
 
 
 def _serialize_experimental_value_info_for_function_ir9_into(
-    graph_proto: onnx.GraphProto, function: _protocols.FunctionProtocol
+    graph_proto: onnx.GraphProto,
+    function: _protocols.FunctionProtocol,
+    reserved_names: Collection[str] = (),
 ) -> None:
     """Serialize value info for functions in an experimental format for IR version 9.
 
@@ -1767,7 +1781,11 @@ def _serialize_experimental_value_info_for_function_ir9_into(
 
     def can_be_parsed_back(value_name: str) -> bool:
         # A "::" in the domain or a "/" in the function name makes the formatted name
-        # ambiguous: the entry could not be attached to this value again when the model is loaded
+        # ambiguous: the entry could not be attached to this value again when the model is loaded.
+        # A formatted name that is also the name of a value of the main graph is ambiguous as well:
+        # when the model is loaded the entry would be attached to that value too
+        if format_name(value_name) in reserved_names:
+            return False
         return _parse_experimental_function_value_info_name(format_name(value_name)) == (
             function.domain,
             function.name,
